@@ -54,7 +54,7 @@ def direct_dependencies_only(F, res, rule="T1"):
     dep = F.fn(PK + "dependencies")
     # private helpers of Package that visible_modules delegates to (not the two accessors themselves)
     helpers = [p for p in F.with_helpers(vm.path, depth=2)
-               if p.startswith(PK) and "{closure" not in p and p.rsplit("::", 1)[-1] not in ("visible_modules", "dependencies", "module_map", "is_local")]
+               if p.startswith("ide::def::hir::") and "{closure" not in p and p.rsplit("::", 1)[-1] not in ("visible_modules", "dependencies", "module_map", "is_local")]
     units = _units(F, vm.path, helpers)
     dep_calls, bad_dep, rec, own, others, inserts = 0, [], [], 0, 0, 0
     for u in units:
